@@ -19,15 +19,15 @@ import (
 //
 // Phase A enumerates every one of the 2^26 (CurrINF, CurrHF, Seg0Len, Seg1Len,
 // Seg2Len) meta headers and compares scion.Base.DecodeFromBytes with refShape.
-// Phase B takes accepted shapes (all of them in thorough tier and, because it
-// is cheap enough, also in quick tier unless c19QuickFraction < 1) and, for all
-// 256 pointer values of each, compares every pointer predicate, IncPath,
+// Phase B takes accepted shapes (all 43743 of them in thorough tier, a
+// PRNG-chosen c19QuickFraction of them in quick tier) and, for all 256 pointer
+// values of each, compares every pointer predicate, IncPath,
 // Reverse and the Raw/Decoded conversions with the reference model in
 // ref_path.go.
 
 // c19QuickFraction is the share of accepted shapes that the quick tier takes
 // through phase B (PRNG-chosen). 1 means all of them.
-const c19QuickFraction = 1.0
+const c19QuickFraction = 0.3
 
 type c19Wit struct {
 	Seg     [3]uint8 `json:"seg"`
@@ -185,6 +185,41 @@ func diffDecoded(d *scion.Decoded, q *refScionPath) string {
 	return ""
 }
 
+// posCode is a cheap injective code of posKind's result, used to avoid
+// formatting the class key for each of the millions of states.
+func posCode(seg [3]uint8, ninf, nhops int, inf, hf uint8) uint32 {
+	if int(hf) >= nhops {
+		if int(inf) >= ninf {
+			return 1
+		}
+		return 2
+	}
+	idx, first, last := refSegOf(seg, int(hf))
+	var c uint32 = 4
+	switch {
+	case first == last:
+		c = 5
+	case int(hf) == first:
+		c = 6
+	case int(hf) == last:
+		c = 7
+	}
+	if int(hf) == nhops-1 {
+		c |= 8
+	}
+	if hf == 0 {
+		c |= 16
+	}
+	c |= uint32(idx) << 5
+	switch {
+	case int(inf) >= ninf:
+		c |= 1 << 8
+	case int(inf) != idx:
+		c |= 2 << 8
+	}
+	return c
+}
+
 func posKind(seg [3]uint8, ninf, nhops int, inf, hf uint8) string {
 	if int(hf) >= nhops {
 		if int(inf) >= ninf {
@@ -340,6 +375,16 @@ func c19DeepShape(a *acc, rng *rand.Rand, seg [3]uint8, cleanReserved bool, allS
 		a.class("stepping/" + shapeCls)
 
 		// ---- every pointer state ----
+		rev0 := ref0.refReverse() // pointer-independent part of the reversed path
+		reversedRef := func(inf, hf uint8) *refScionPath {
+			return &refScionPath{Meta: refMeta{Inf: uint8(ninf - 1 - int(inf)), Hf: uint8(nhops - 1 - int(hf)), Rsv: rsv, Seg: rev0.Meta.Seg},
+				Infos: rev0.Infos, Hops: rev0.Hops}
+		}
+		var d scion.Decoded
+		dFresh := false
+		work3 := make([]byte, plen)
+		var nRevDecoded, nRevRaw, nBoundary int64
+		seenPos := map[uint32]struct{}{}
 		for inf := uint8(0); inf < 4; inf++ {
 			for hf := uint8(0); hf < 64; hf++ {
 				cur.Inf, cur.Hf = inf, hf
@@ -352,8 +397,12 @@ func c19DeepShape(a *acc, rng *rand.Rand, seg [3]uint8, cleanReserved bool, allS
 				}
 				hfIn := int(hf) < nhops
 				infIn := int(inf) < ninf
-				pk := posKind(seg, ninf, nhops, inf, hf)
-				a.class("state/" + fmt.Sprintf("ninf=%d/", ninf) + pk)
+				if pc := posCode(seg, ninf, nhops, inf, hf); true {
+					if _, ok := seenPos[pc]; !ok {
+						seenPos[pc] = struct{}{}
+						a.class("state/" + fmt.Sprintf("ninf=%d/", ninf) + posKind(seg, ninf, nhops, inf, hf))
+					}
+				}
 				consistent := false
 				if hfIn {
 					idx, first, last := refSegOf(seg, int(hf))
@@ -386,7 +435,7 @@ func c19DeepShape(a *acc, rng *rand.Rand, seg [3]uint8, cleanReserved bool, allS
 								"IsFirstHopAfterXover()=%v at hop %d (segment %d spans hops %d..%d)", got, hf, idx, first, last),
 								wit(inf, hf, fmt.Sprint(got), fmt.Sprint(wantF)))
 						}
-						a.event("boundary_predicates")
+						nBoundary++
 						// current fields at the specified offsets
 						a.evals++
 						ci, e1 := rw.GetCurrentInfoField()
@@ -420,14 +469,19 @@ func c19DeepShape(a *acc, rng *rand.Rand, seg [3]uint8, cleanReserved bool, allS
 				}
 
 				// ---- Reverse on the decoded representation ----
-				copy(work, content)
-				setMeta(work, inf, hf)
-				orig := refParseScionPath(work)
-				var d scion.Decoded
-				if err := d.DecodeFromBytes(work); err != nil {
-					a.violation("C19:decode-rejects-good-shape", "Decoded.DecodeFromBytes: "+err.Error(), wit(inf, hf, "error", "accepted"))
-					continue
+				// The reference path differs between states only in its pointers; the
+				// implementation object is decoded afresh whenever the previous state
+				// did not leave it equal to the reference original.
+				orig := &refScionPath{Meta: refMeta{Inf: inf, Hf: hf, Rsv: rsv, Seg: seg}, Infos: ref0.Infos, Hops: ref0.Hops}
+				if !dFresh {
+					copy(work3, content)
+					if err := d.DecodeFromBytes(work3); err != nil {
+						a.violation("C19:decode-rejects-good-shape", "Decoded.DecodeFromBytes: "+err.Error(), wit(inf, hf, "error", "accepted"))
+						continue
+					}
 				}
+				dFresh = false
+				d.PathMeta.CurrINF, d.PathMeta.CurrHF = inf, hf
 				a.evals++
 				rp, err := d.Reverse()
 				rd, ok := rp.(*scion.Decoded)
@@ -437,7 +491,7 @@ func c19DeepShape(a *acc, rng *rand.Rand, seg [3]uint8, cleanReserved bool, allS
 				}
 				if consistent {
 					a.evals++
-					if df := diffDecoded(rd, orig.refReverse()); df != "" {
+					if df := diffDecoded(rd, reversedRef(inf, hf)); df != "" {
 						a.violation("C19:reverse-once", "Decoded.Reverse: "+df, wit(inf, hf, df, ""))
 					}
 				}
@@ -449,8 +503,10 @@ func c19DeepShape(a *acc, rng *rand.Rand, seg [3]uint8, cleanReserved bool, allS
 				}
 				if df := diffDecoded(rd2, orig); df != "" {
 					a.violation("C19:reverse-twice", "Decoded.Reverse twice: "+df, wit(inf, hf, df, ""))
+				} else if rd2 == &d {
+					dFresh = true // restored: reusable for the next state
 				}
-				a.event("reverse_decoded")
+				nRevDecoded++
 
 				// ---- Reverse on the raw representation ----
 				if !consistent && !allStatesRawReverse && (int(hf)+int(inf))%8 != 0 {
@@ -469,7 +525,7 @@ func c19DeepShape(a *acc, rng *rand.Rand, seg [3]uint8, cleanReserved bool, allS
 				}
 				if consistent {
 					a.evals++
-					q := orig.refReverse()
+					q := reversedRef(inf, hf)
 					qb := q.bytes()
 					if !eqMasked(r1.Raw, qb, mask) || r1.PathMeta.CurrINF != q.Meta.Inf || r1.PathMeta.CurrHF != q.Meta.Hf ||
 						r1.PathMeta.SegLen != q.Meta.Seg || r1.NumINF != ninf || r1.NumHops != nhops {
@@ -493,9 +549,12 @@ func c19DeepShape(a *acc, rng *rand.Rand, seg [3]uint8, cleanReserved bool, allS
 					a.violation("C19:reverse-twice", fmt.Sprintf("Raw.Reverse twice: meta %+v bytes %s, started from %s",
 						r1.PathMeta, hexs(r1.Raw[:4]), hexs(work2[:4])), wit(inf, hf, hexs(r1.Raw), hexs(work2)))
 				}
-				a.event("reverse_raw")
+				nRevRaw++
 			}
 		}
+		a.eventN("reverse_decoded", nRevDecoded)
+		a.eventN("reverse_raw", nRevRaw)
+		a.eventN("boundary_predicates", nBoundary)
 	})
 	if p != nil {
 		a.violation("C19:panic:"+mon.PanicSite(stack), fmt.Sprintf("panic: %v\n%s", p, stack), cur)
